@@ -249,6 +249,13 @@ def add_keyword(c, o, kw, depth):
             name = "d%d" % rng.randint(0, 2)
             c.defs.append(name)
             o.set("$ref", ("#/$defs/" if c.draft == "2020" else "#/definitions/") + name)
+        if c.draft == "7" and rng.random() < 0.3:
+            # draft-07: every keyword beside $ref is ignored — also the ones that would make the object the `false` schema
+            # ({"not": {}}) or otherwise unsatisfiable, wherever the object sits (additionalProperties, items, properties …)
+            k, v = rng.choice([("not", Obj()), ("not", True), ("type", "null"), ("const", "never"), ("enum", []), ("maxProperties", Num("0")),
+                               ("required", ["zz"]), ("minimum", Num("100"))])
+            if o.get(k) is None:
+                o.set(k, v)
     elif kw == "meta":
         add_meta(c, o)
 
